@@ -10,3 +10,4 @@ import TeosVerif.Props.C14
 #print axioms Teos.C14.every_reply_handled_on_retry
 #print axioms Teos.C14.every_reply_handled_on_register
 #print axioms Teos.C14.classify_total
+#print axioms Teos.C14.flagging_call_sites_are_the_modelled_ones
